@@ -142,13 +142,14 @@ func oracleTotal(d caseDesc, o observation) []failure {
 	if strings.HasPrefix(o.Ret, "panic") {
 		return []failure{{"total:panic", fmt.Sprintf("processing %q (pid token %q) panicked: %s", line, d.Tok, o.Ret)}}
 	}
-	if d.Mode.WriteOK && o.Ret != "ok" {
+	if !d.Mode.writeFails() && o.Ret != "ok" {
 		fs = append(fs, failure{"total:error", fmt.Sprintf("processing %q returned an error although the writer works: %s", line, o.Ret)})
 	}
-	if len(o.Events) > 1 {
-		fs = append(fs, failure{"total:many-events", fmt.Sprintf("%d events for one line %q", len(o.Events), line)})
+	em := emitted(o.Events)
+	if len(em) > 1 {
+		fs = append(fs, failure{"total:many-events", fmt.Sprintf("%d events for one line %q", len(em), line)})
 	}
-	if len(o.Fwds) > 0 && (len(o.Events) != 1 || !o.Events[0].OK || len(o.Fwds) > 1) {
+	if len(o.Fwds) > 0 && (len(em) != 1 || !em[0].OK || len(o.Fwds) > 1) {
 		fs = append(fs, failure{"total:forward-without-success", fmt.Sprintf("a login was forwarded for %q without exactly one succeeded event", line)})
 	}
 	if len(o.Events) > 0 && !hasKeyword(line) {
@@ -187,7 +188,8 @@ func oracleTotal(d caseDesc, o observation) []failure {
 	return fs
 }
 
-// C19
+// C19: every EMITTED event (one the writer accepted) is counted once, under the matching labels; lines without a
+// keyword change no counter.  Nothing is claimed about an event that was not emitted (a rejected write).
 func oracleMetrics(d caseDesc, o observation) []failure {
 	var fs []failure
 	line := d.Gen.Line
@@ -198,15 +200,20 @@ func oracleMetrics(d caseDesc, o observation) []failure {
 	if !hasKeyword(line) && total != 0 {
 		fs = append(fs, failure{"metrics:counted-without-keyword", fmt.Sprintf("counters changed (%v) for %q, which begins with no recognised keyword", o.Metrics, line)})
 	}
-	if n := len(o.Events); n > 1 && total != n {
+	em := emitted(o.Events)
+	attempts := ""
+	if len(em) != len(o.Events) {
+		attempts = fmt.Sprintf(" (%d write(s) were rejected before)", len(o.Events)-len(em))
+	}
+	if n := len(em); n > 1 && total != n {
 		// every emitted event is counted once: n events need n increments
-		fs = append(fs, failure{"metrics:not-once", fmt.Sprintf("%d events emitted for %q but the login counter moved by %d (%v)", n, line, total, o.Metrics)})
+		fs = append(fs, failure{"metrics:not-once", fmt.Sprintf("%d events emitted for %q but the login counter moved by %d (%v)%s", n, line, total, o.Metrics, attempts)})
 		return fs
 	}
-	if len(o.Events) == 1 {
-		e := o.Events[0]
+	if len(em) == 1 {
+		e := em[0]
 		if total != 1 {
-			fs = append(fs, failure{"metrics:not-once", fmt.Sprintf("one event emitted for %q but the login counter moved by %d (%v)", line, total, o.Metrics)})
+			fs = append(fs, failure{"metrics:not-once", fmt.Sprintf("one event emitted for %q but the login counter moved by %d (%v)%s", line, total, o.Metrics, attempts)})
 			return fs
 		}
 		for k := range o.Metrics {
@@ -253,8 +260,9 @@ func oracleForward(d caseDesc, o observation) []failure {
 		return []failure{{"forward:panic", "processing panicked: " + o.Ret}}
 	}
 	// never forward without exactly one succeeded event written first
+	em := emitted(o.Events)
 	for _, f := range o.Fwds {
-		if len(o.Events) != 1 || !o.Events[0].OK || !f.AfterEnc || !f.SameEvt {
+		if len(em) != 1 || !em[0].OK || !f.AfterEnc || !f.SameEvt {
 			fs = append(fs, failure{"forward:not-the-written-event", fmt.Sprintf("a login was forwarded for %q that is not (after) exactly the one succeeded event written", line)})
 		}
 	}
@@ -269,19 +277,21 @@ func oracleForward(d caseDesc, o observation) []failure {
 		return fs
 	}
 	switch {
-	case !d.Mode.WriteOK:
+	case d.Mode.writeFails():
+		// the writer rejects the event (for good, or the first FailFirst times): the error is returned and nothing is
+		// forwarded — also when a later attempt would have been accepted
 		if o.Ret != "write" {
-			fs = append(fs, failure{"forward:write-error-not-returned", fmt.Sprintf("the event for %q could not be written but the processor returned %s", line, o.Ret)})
+			fs = append(fs, failure{"forward:write-error-not-returned", fmt.Sprintf("the write of the event for %q was rejected (%d of %d writes rejected) but the processor returned %s", line, len(o.Events)-len(em), len(o.Events), o.Ret)})
 		}
 		if len(o.Fwds) != 0 {
 			fs = append(fs, failure{"forward:forwarded-after-write-failure", fmt.Sprintf("a login was forwarded for %q although its event could not be written", line)})
 		}
 	case !d.Mode.Ready:
-		if o.Ret != "ok" || len(o.Events) != 1 || len(o.Fwds) != 0 {
+		if o.Ret != "ok" || len(em) != 1 || len(o.Events) != 1 || len(o.Fwds) != 0 {
 			fs = append(fs, failure{"forward:cancelled", fmt.Sprintf("cancelled hand-off for %q: ret=%s events=%d forwards=%d (expected ok/1/0)", line, o.Ret, len(o.Events), len(o.Fwds))})
 		}
 	default:
-		if len(o.Events) != 1 || !o.Events[0].OK {
+		if len(em) != 1 || len(o.Events) != 1 || !em[0].OK {
 			fs = append(fs, failure{"forward:no-succeeded-event", fmt.Sprintf("accepted authentication %q did not write exactly one succeeded event (%d events)", line, len(o.Events))})
 			return fs
 		}
